@@ -240,7 +240,7 @@ fn near_multiple(r: &mut Rng, al: u64, limit_bits: u32) -> u64 {
 
 pub fn run(a: &Args, rep: &mut Report) {
     let mut r = Rng::derive(a.seed, "c06", a.shard);
-    let per = a.budget(64 * 6_000, 64 * 4_000_000) / 64;
+    let per = a.budget(64 * 20_000, 64 * 4_000_000) / 64;
     for k in 0..64u32 {
         let al = 1u64 << k;
         for i in 0..per {
